@@ -510,8 +510,15 @@ Definition parse_float (s : str) : parse_num :=
       let '(neg, ds) := if N.eqb c 45 then (true, t) else if N.eqb c 43 then (false, t) else (false, s) in
       if negb (Nat.eqb (List.length ds) 0) && forallb is_digit ds && Nat.leb (List.length ds) 15 then
         let v := float_of_Z (digits_val ds 0) in PnOk (if neg then (- v)%float else v)
-      else if forallb (fun ch => existsb (N.eqb ch) float_chars) s then PnOracle
-      else PnFail
+      else
+        (* every Go float literal starts (after the sign) with a digit, '.', or the i/n of inf/nan *)
+        match ds with
+        | [] => PnFail
+        | d0 :: _ =>
+            if negb (is_digit d0 || existsb (N.eqb d0) [46; 105; 73; 110; 78]%N) then PnFail
+            else if forallb (fun ch => existsb (N.eqb ch) float_chars) s then PnOracle
+            else PnFail
+        end
   end.
 
 Definition n_err : str := Eval compute in s_ "err".
